@@ -212,6 +212,10 @@ def instantiate_class_and_update_cache(symbolic_cls: Type, original_new: Callabl
     else:
         # a __new__ of the class's own (or of a base) gets the arguments of the call, as it does without the decorator.
         instance = original_new(symbolic_cls, *args, **kwargs)
+        if not isinstance(instance, symbolic_cls):
+            # a __new__ that hands back an object of another type did not construct an instance of this class (Python
+            # does not run __init__ on it either): nothing to register.
+            return instance
     index = index_class_cache(symbolic_cls)
     if index:
         update_cls_args(symbolic_cls)
